@@ -378,3 +378,52 @@ func (r *Run) blockingOps() {
 		r.frameObl("interp."+gen+"/blocking:races-done", "no run-time closure of "+gen+" blocks with a plain Recv/Send (every blocking operation is a reflect.Select that includes f.done)", len(bad) == 0, strings.Join(bad, "; "))
 	}
 }
+
+// debuggerFrame: the debugger hooks called from runCfg write only debugger state — never frame
+// data, the defer stack, the pending panic or the run ids.
+func (r *Run) debuggerFrame() {
+	p := r.L.ByName["interp"]
+	forbidden := map[string]bool{"frame.data": true, "frame.deferred": true, "frame.recovered": true, "frame.id": true, "frame.anc": true, "frame.root": true, "frame.done": true, "Interpreter.id": true, "node.exec": true, "node.tnext": true, "node.fnext": true}
+	for _, fnName := range []string{"Debugger.exec", "Debugger.enterCall", "Debugger.exitCall", "Debugger.enterGoRoutine", "Debugger.exitGoRoutine", "Debugger.getGoRoutine"} {
+		fd := r.L.FindFunc(p, fnName)
+		if fd == nil {
+			if fnName == "Debugger.getGoRoutine" {
+				continue
+			}
+			r.engineError("%s does not exist in the current tree", fnName)
+			continue
+		}
+		var bad []string
+		check := func(e ast.Expr) {
+			se, ok := unparen(e).(*ast.SelectorExpr)
+			for !ok {
+				if ix, isIx := unparen(e).(*ast.IndexExpr); isIx {
+					e = ix.X
+					se, ok = unparen(e).(*ast.SelectorExpr)
+					continue
+				}
+				return
+			}
+			if sel, ok := p.TypesInfo.Selections[se]; ok && sel.Kind() == types.FieldVal {
+				k := typeNameShort(sel.Recv()) + "." + se.Sel.Name
+				if forbidden[k] {
+					pos := r.L.Fset.Position(se.Pos())
+					bad = append(bad, fmt.Sprintf("%s (%s:%d)", k, shortFile(pos.Filename), pos.Line))
+				}
+			}
+		}
+		ast.Inspect(fd.Body, func(n ast.Node) bool {
+			switch n := n.(type) {
+			case *ast.AssignStmt:
+				for _, l := range n.Lhs {
+					check(l)
+				}
+			case *ast.IncDecStmt:
+				check(n.X)
+			}
+			return true
+		})
+		r.frameObl("interp."+fnName+"/assigns:debugger-state-only", fnName+" assigns no interpreter frame state (data, deferred, recovered, ids, links) and no node wiring", len(bad) == 0, strings.Join(bad, "; "))
+		r.FuncsUC = append(r.FuncsUC, "interp."+fnName)
+	}
+}
